@@ -58,6 +58,9 @@ ExpectedHQ(s, c) ==
     CASE c.root.t = "N" ->
            IF c.rec THEN occ
            ELSE {h \in occ : Depth(h) = (IF c.fn = "hinstances" THEN 2 ELSE 1)}
+      [] c.root.t = "E" /\ c.sel = "ALL" ->    \* the element itself as the start: the nets of ALL its occurrences
+           UNION {ConnectedAll(s, h) : h \in {hh \in OccWire(s, n) \cup OccCable(s, n) \cup OccPin(s, n) \cup OccPort(s, n) :
+                                                  Last(hh) = <<c.root.kind, c.root.id>>}}
       [] c.root.t = "E" -> ExpectedOfItem(s, n, c.fn, c.root.kind, c.root.id)
       [] c.root.t = "HS" ->     \* the union of what each reference alone gives
            UNION {ExpectedHQ(s, [c EXCEPT !.root = RootH(c.root.hs[j])]) : j \in DOMAIN c.root.hs}
@@ -171,6 +174,9 @@ QueryCandsC12(s) ==
     {HQS("hwires", RootH(h), "ALL") : h \in OccWire(s, n) \cup OccCable(s, n) \cup OccPin(s, n) \cup OccPort(s, n)}
     \cup {HQS("hwires", RootH(h), sel) : <<h, sel>> \in OccPin(s, n) \X {"INSIDE", "OUTSIDE"}}
     \cup {HQS("hpins", RootH(h), "NONE") : h \in OccWire(s, n)}
+    \* started from the element itself (not from one hierarchical occurrence of it)
+    \cup {HQS("hwires", RootE("W", x), "ALL") : x \in IdsW(s)} \cup {HQS("hwires", RootE("C", x), "ALL") : x \in IdsC(s)}
+    \cup {HQS("hwires", RootE("Q", x), "ALL") : x \in IdsQ(s)} \cup {HQS("hwires", RootE("P", x), "ALL") : x \in IdsP(s)}
 (* clone with every element of the design as the root *)
 CloneCands(s) ==
     {[op |-> "clone", kind |-> kind, x |-> x] :
@@ -193,6 +199,19 @@ XfCands(s) ==
         pick == (IF newT = {} THEN {} ELSE {CHOOSE p \in newT : TRUE}) \cup (IF oldT = {} THEN {} ELSE {CHOOSE p \in oldT : TRUE})
     IN {[op |-> "seq", calls |-> << U, U, [op |-> "flatten", n |-> 1] >>]}
        \cup {[op |-> "seq", calls |-> << U, [op |-> "set_ref", i |-> p[1], d |-> s1.instRef[p[2]]], U >>] : p \in pick}
+(* flatten, extend the flat design by a NEW hierarchical cell (a cable with an identifier, a leaf inside), flatten again *)
+XfAgainCands(s) ==
+    LET U == [op |-> "uniquify", n |-> 1]  F == [op |-> "flatten", n |-> 1]
+        s2 == ApplySeqX(s, <<U, F>>)
+        d == NumD(s2) + 1  c == NumC(s2) + 1
+        topd == s2.instRef[s2.nlTop[1]]
+    IN {[op |-> "seq", calls |-> << U, F,
+                                   [op |-> "create", rel |-> "LD", p |-> s2.defLib[topd], name |-> "h", n |-> 0],
+                                   [op |-> "create", rel |-> "DC", p |-> d, name |-> "hc", n |-> 1],
+                                   [op |-> "set_item", kind |-> "C", x |-> c, key |-> "eid", val |-> "hc"],
+                                   [op |-> "create_child", p |-> d, name |-> "hl", ref |-> 1],
+                                   [op |-> "create_child", p |-> topd, name |-> "hh", ref |-> d],
+                                   U, F >>]}
 (* queries that take part in random walks (scopes with walk = TRUE): they are steps of the       *)
 (* behaviour, so that queries, renames and structural edits interleave on the same objects       *)
 WalkQueryCands(s) ==
